@@ -484,9 +484,9 @@ func genC14(g engine.G) *engine.Case {
 				}
 			}
 			side.Form = engine.Pick(g, []string{"pptr", "mixed"})
-		if side.Form == "pptr" {
-			side.Depth = engine.Pick(g, []int{2, 2, 3, 4, 255, 256, 257, 258, 512, 513})
-		}
+			if side.Form == "pptr" {
+				side.Depth = engine.Pick(g, []int{2, 2, 3, 4, 255, 256, 257, 258, 512, 513})
+			}
 		}
 	}
 	c := &engine.Case{}
